@@ -1,35 +1,35 @@
-\* generated by lib/slices.py from slice 'refuse_stored' - do not edit
+\* generated by lib/slices.py from slice 'gate_x' - do not edit
 SPECIFICATION Spec
 VIEW view
 CHECK_DEADLOCK FALSE
 PROPERTY NoViolation
 ACTION_CONSTRAINT PrintEdge
 CONSTANTS
- Roles = {"server"}
+ Roles = {"any", "client", "server"}
  Vers = {"v311", "v50"}
  Idws = {16}
  CheckProps = {"C05", "C06", "C07", "C08", "C10", "C11", "C12", "C13", "C14", "C15", "C16", "C17", "C19"}
  OptSets = {{}}
  RespTimeouts = {0}
- MaxConns = 2
+ MaxConns = 1
  MaxHeld = 1
  MaxUsed = 1
- AppKinds = {"publish"}
- PeerKinds = {"puback"}
- QosSet = {1}
+ AppKinds = {"auth", "disconnect", "pingreq", "pingresp", "puback", "pubcomp", "publish", "pubrec", "pubrel", "suback", "subscribe", "unsuback", "unsubscribe"}
+ PeerKinds = {}
+ QosSet = {0, 1}
  Topics = {"t1"}
  Aliases = {0}
  InPids = {1}
  ExtraPids = {9}
  Rcs = {0}
- Cleans = {FALSE}
+ Cleans = {TRUE}
  KAs = {0}
  ConnRMs = {99999}
  ConnTAMs = {99999}
  ConnMPSs = {99999}
- ConnSEIs = {10}
- SPs = {FALSE, TRUE}
- ConnackRcs = {0, 135}
+ ConnSEIs = {99999}
+ SPs = {FALSE}
+ ConnackRcs = {0}
  AckRMs = {99999}
  AckTAMs = {99999}
  AckMPSs = {99999}
@@ -39,13 +39,13 @@ CONSTANTS
  PartialFrames = FALSE
  Intervals = {}
  Fire = FALSE
- Close = TRUE
+ Close = FALSE
  Erase = FALSE
  IdOps = FALSE
  Crash = FALSE
  Garbage = FALSE
  BadFrames = {}
- SendWhileDisc = FALSE
+ SendWhileDisc = TRUE
  PeerWhileDisc = FALSE
  LateFrames = FALSE
- CrossVersion = FALSE
+ CrossVersion = TRUE
